@@ -177,7 +177,13 @@ type State struct {
 }
 
 // SnapState captures the persistent state under dir (shard may be open if it is quiescent).
-func SnapState(dir string) (State, error) {
+func SnapState(dir string) (State, error) { return snapState(dir, true) }
+
+// SnapStateRaw is SnapState without the logical metabase dump (MetaDump stays ""): enough for
+// "byte-identical" comparisons and much cheaper (no bbolt open).
+func SnapStateRaw(dir string) (State, error) { return snapState(dir, false) }
+
+func snapState(dir string, dump bool) (State, error) {
 	var st State
 	var err error
 	if st.Blob, err = SnapTree(BlobDir(dir)); err != nil {
@@ -191,7 +197,9 @@ func SnapState(dir string) (State, error) {
 		return st, err
 	}
 	st.MetaRaw = m[filepath.Base(MetaPath(dir))]
-	st.MetaDump, err = BoltDump(MetaPath(dir))
+	if dump {
+		st.MetaDump, err = BoltDump(MetaPath(dir))
+	}
 	return st, err
 }
 
@@ -223,6 +231,13 @@ func (a State) DiffLogical(b State) []string {
 		}
 	}
 	return out
+}
+
+// RawHash digests the byte-level persistent state.
+func (a State) RawHash() string {
+	hh := sha256.New()
+	fmt.Fprintf(hh, "%s|%s|%s", a.Blob.Hash(), a.WC.Hash(), a.MetaRaw)
+	return hex.EncodeToString(hh.Sum(nil))
 }
 
 // LogicalHash digests the logical persistent state (for state deduplication).
